@@ -373,6 +373,17 @@ func (e *Enc) typeAssume(st *State, lf Leaf, t string) {
 		case ".base":
 			e.assertTyping("(<= " + t + " " + st.alloc + ")")
 		}
+		// every slice value is well-formed wherever it is stored: 0 <= off, 0 <= len <= MaxInt64 (len() is an int)
+		if i := strings.LastIndex(lf.Path, "."); i >= 0 {
+			switch lf.Path[i:] {
+			case ".len":
+				e.assertTyping("(and (<= 0 " + t + ") (<= " + t + " 9223372036854775807))")
+			case ".off":
+				e.assertTyping("(<= 0 " + t + ")")
+			case ".cap":
+				e.assertTyping("(<= " + t + " 9223372036854775807)")
+			}
+		}
 	}
 }
 
